@@ -156,16 +156,26 @@ def discover(scratch):
 # building the real entities
 # ----------------------------------------------------------------------------------
 
-def build(desc, ws):
+def build(desc, ws, kw_side=None):
+    """`kw_side`: that side is created second and names its partner in the constructor call (`Cls.create(..., partner=other)`)
+    instead of being linked by an assignment afterwards."""
     from geoh5py import objects
     ca, cb = getattr(objects, desc["A"]), getattr(objects, desc["B"])
     g = desc["geom"]
     if g in ("line", "single"):
         x = np.arange(float(N_LINE))
         v = np.c_[x, np.zeros(N_LINE), np.zeros(N_LINE)]
-        a = ca.create(ws, vertices=v, name="side_a")
         vb = v + np.r_[0.0, 0.0, 1.0]
-        b = cb.create(ws, vertices=vb if g == "line" else vb[:1], name="side_b")
+        vb = vb if g == "line" else vb[:1]
+        if kw_side == "A":
+            b = cb.create(ws, vertices=vb, name="side_b")
+            a = ca.create(ws, vertices=v, name="side_a", **{desc["attrB"]: b})
+        elif kw_side == "B":
+            a = ca.create(ws, vertices=v, name="side_a")
+            b = cb.create(ws, vertices=vb, name="side_b", **{desc["attrA"]: a})
+        else:
+            a = ca.create(ws, vertices=v, name="side_a")
+            b = cb.create(ws, vertices=vb, name="side_b")
         return a, b
     if g == "largeloop":
         verts, loops, txid, cells, count = [], [], [], [], 0
@@ -359,7 +369,9 @@ def apply_edit(desc, ent, param, k):
 def gen_case(rng, desc, direction, max_ops=6):
     params = available_params(desc)
     ops = []
-    if desc["kind"] == "em" and rng.random() < 0.35:
+    # a third of the pairs that allow it are linked in the constructor call of the second side, not by a later assignment
+    kwlink = desc.get("geom") in ("line", "single") and rng.random() < 0.34
+    if desc["kind"] == "em" and rng.random() < 0.35 and not kwlink:
         ops.append({"t": "edit", "i": 0, "s": rng.choice("AB"), "param": rng.choice(params), "k": rng.randrange(40)})
     ops.append({"t": "link", "i": 0, "s": direction})
     npairs = 1
@@ -377,7 +389,7 @@ def gen_case(rng, desc, direction, max_ops=6):
             if desc["linkdata"]:
                 npairs += 1
     return {"pair": desc["name"], "variant": desc["variant"], "dir": direction, "ops": ops, "lazy": rng.random() < 0.5,
-            "repair": rng.choice(["no", "cached", "uncached"])}
+            "repair": rng.choice(["no", "cached", "uncached"]), "kwlink": kwlink}
 
 
 def witness(desc):
@@ -520,7 +532,10 @@ class Run:
     # -- operations
     def start(self):
         w = self.ws("main")
-        a, b = build(self.desc, w)
+        self.kwlink = bool(self.case.get("kwlink")) and self.case["ops"] and self.case["ops"][0]["t"] == "link"
+        a, b = build(self.desc, w, self.case["ops"][0]["s"] if self.kwlink else None)
+        if self.kwlink:
+            self.ctx.count("linked-in-the-constructor-call")
         self.alloc("main", a.uid, b.uid)
         self.pairs.append({"ws": "main", "A": a.uid, "B": b.uid, "ents": {"A": a, "B": b}})
         ra, rb = rec_of(self.desc, a, self.uids, "main"), rec_of(self.desc, b, self.uids, "main")
@@ -530,7 +545,10 @@ class Run:
     def do_link(self, op):
         p = self.pairs[op["i"]]
         src, dst = p["ents"][op["s"]], p["ents"]["B" if op["s"] == "A" else "A"]
-        setattr(src, self.desc["attrB"] if op["s"] == "A" else self.desc["attrA"], dst)
+        if getattr(self, "kwlink", False) and op["i"] == 0 and not getattr(self, "kw_done", False):
+            self.kw_done = True          # the link was made when side `s` was created
+        else:
+            setattr(src, self.desc["attrB"] if op["s"] == "A" else self.desc["attrA"], dst)
         self.model_ops.append({"t": "link", "i": op["i"], "s": op["s"]})
         snap, stored = self.mark()
         self.check_ids(op["i"], snap, stored, "link")
